@@ -208,3 +208,55 @@ def _shift_ok(state, fname):
 
 
 TASK.edges = {"shift": {"apply": _shift, "funcs": None, "keys": None, "ok": _shift_ok}}
+
+
+# ---- repository fixtures: model bound to the recorded outputs (fixture_check), and perturbed fixtures as extra
+# states for C04 (as is / estimate thinned by dropping every 3rd beat / estimate shifted by 1/64 s)
+def _load_events(path):
+    return tuple(float(l.split()[0]) for l in open(path) if l.strip() and not l.startswith("#"))
+
+
+def _fixture_files():
+    import glob
+    import os
+    root = os.environ.get("VERIF_REPO") or "/repo"
+    d = os.path.join(root, "tests", "data", "beat")
+    return list(zip(sorted(glob.glob(d + "/ref*.txt")), sorted(glob.glob(d + "/est*.txt")),
+                    sorted(glob.glob(d + "/output*.json"))))
+
+
+def fixture_check(tier):
+    import json
+    from mc import core
+    files = _fixture_files()
+    if not files:
+        raise core.HarnessError("beat fixtures not found")
+    n = 0
+    for rf, ef, of in (files if tier == "thorough" else files[:4]):
+        R, E = list(_load_events(rf)), list(_load_events(ef))
+        exp = json.load(open(of))
+        try:
+            got = S.evaluate(R, E)
+        except S.Undefined:
+            continue
+        for k, v in exp.items():
+            if abs(got[k] - v) > 1e-7:
+                raise core.HarnessError("beat reference model disagrees with recorded fixture %s key %s: %r vs %r"
+                                        % (of, k, got[k], v))
+        n += 1
+    return n
+
+
+def fixture_states(tier):
+    out = []
+    files = _fixture_files()
+    for rf, ef, _ in (files if tier == "thorough" else files[:1]):
+        R, E = _load_events(rf), _load_events(ef)
+        out.append((R, E))
+        out.append((R, tuple(e for i, e in enumerate(E) if i % 3 != 2)))
+        out.append((R, tuple(e + 1 / 64.0 for e in E)))
+    return out
+
+
+TASK.fixture_check = fixture_check
+TASK.fixture_states = fixture_states
